@@ -9,7 +9,8 @@
 (* in any order, for known, unknown and already answered ids, and of any   *)
 (* type.  A reply of a value type carries a payload that names the request *)
 (* it answers (tag = the id in the reply header), so "the caller got the   *)
-(* reply to its own request" is observable.                                *)
+(* reply to its own request" is observable.  A caller may also be          *)
+(* cancelled while its request is outstanding; the reply may arrive later. *)
 (***************************************************************************)
 EXTENDS Integers, Sequences, FiniteSets, TLC
 
@@ -17,10 +18,13 @@ CONSTANTS
     K,            \* number of concurrent callers
     Kinds,        \* what each caller may ask for: subset of ValueTypes \cup {"status"}
     MaxReplies,   \* number of replies the server sends
+    MaxCancels,   \* number of callers that may be cancelled while their request is outstanding
     UnknownId,    \* an id that was never allocated
     AllowUnknown, \* TRUE: the server may use UnknownId (duplicates are always possible)
     CheckType,    \* TRUE: reply type is checked against the request (the code)
-    FailAll       \* TRUE: a reply with an unknown id fails every outstanding request (the code)
+    FailAll,      \* TRUE: a reply with an unknown id fails every outstanding request (the code)
+    DropLate      \* TRUE: the reply to a request whose caller was cancelled is dropped
+                  \* silently (the code); FALSE: it is treated like an unknown id
 
 ValueTypes == {"handle", "data", "name", "attrs", "extreply"}
 ReplyTypes == {"ok", "err"} \cup ValueTypes     \* FXP_STATUS(FX_OK), FXP_STATUS(error), FXP_*
@@ -28,22 +32,26 @@ Ids == 0 .. (K - 1)
 
 VARIABLES
     kind,       \* Ids -> what the caller asked for (fixed per behaviour)
-    waiting,    \* ids with a registered waiter (SFTPClientHandler._requests)
-    outcome,    \* Ids -> <<"none">> | <<"value", type, tag>> | <<"none_value">> (a
-                \* status request returned) | <<"err">> (server's error) | <<"badmsg">>
+    waiting,    \* ids with a registered waiter (SFTPClientHandler._requests); the entry of
+                \* a cancelled caller stays until a reply with its id arrives
+    cancelled,  \* ids whose caller was cancelled (caller time-out, task.cancel(), or the
+                \* parallel I/O layer cancelling sibling blocks after an error)
+    outcome,    \* Ids -> <<"none">> | <<"value", type, tag>> | <<"none_value">> (a status
+                \* request returned) | <<"err">> (server's error) | <<"badmsg">> | <<"cancelled">>
     closed,     \* the client ended the session (_cleanup after a bad id)
     nrep,       \* replies sent so far
     sent,       \* history: set of ids for which some reply was sent
+    badId,      \* history: some reply carried an id with no entry in the table
     lbl
 
-vars == <<kind, waiting, outcome, closed, nrep, sent, lbl>>
-view == <<kind, waiting, outcome, closed, nrep, sent>>
+vars == <<kind, waiting, cancelled, outcome, closed, nrep, sent, badId, lbl>>
+view == <<kind, waiting, cancelled, outcome, closed, nrep, sent, badId>>
 
 Init ==
     /\ kind \in [Ids -> Kinds]
-    /\ waiting = Ids
+    /\ waiting = Ids /\ cancelled = {}
     /\ outcome = [i \in Ids |-> <<"none">>]
-    /\ closed = FALSE /\ nrep = 0 /\ sent = {}
+    /\ closed = FALSE /\ nrep = 0 /\ sent = {} /\ badId = FALSE
     /\ lbl = <<"init">>
 
 Legal(k, t) == t \in {"ok", "err"} \/ t = k       \* k = "status": only status replies
@@ -57,25 +65,46 @@ Resolve(i, t) ==
          THEN (IF kind[i] = "status" THEN <<"none_value">> ELSE <<"badmsg">>)  \* Unexpected FX_OK
     ELSE <<"value", t, i>>
 
+\* _cleanup: every waiter that is not cancelled gets the exception
+EndSession ==
+    /\ closed' = TRUE
+    /\ waiting' = IF FailAll THEN {} ELSE waiting
+    /\ outcome' = IF FailAll
+                  THEN [j \in Ids |-> IF j \in waiting /\ j \notin cancelled
+                                      THEN <<"badmsg">> ELSE outcome[j]]
+                  ELSE outcome
+
 Reply(i, t) ==
     /\ ~closed /\ nrep < MaxReplies
     /\ nrep' = nrep + 1
     /\ lbl' = <<"reply", i, t>>
     /\ sent' = sent \cup {i}
-    /\ UNCHANGED kind
-    /\ IF i \in waiting
+    /\ badId' = (badId \/ i \notin waiting)
+    /\ UNCHANGED <<kind, cancelled>>
+    /\ IF i \in waiting /\ i \notin cancelled
        THEN /\ waiting' = waiting \ {i}
             /\ outcome' = [outcome EXCEPT ![i] = Resolve(i, t)]
             /\ closed' = FALSE
+       ELSE IF i \in waiting /\ DropLate
+       THEN \* late reply to a cancelled request: the entry goes, nothing else happens
+            /\ waiting' = waiting \ {i}
+            /\ UNCHANGED <<outcome, closed>>
        ELSE \* unknown or duplicate id: "Invalid response id"
-            /\ closed' = TRUE
-            /\ waiting' = IF FailAll THEN {} ELSE waiting
-            /\ outcome' = IF FailAll
-                          THEN [j \in Ids |-> IF j \in waiting THEN <<"badmsg">> ELSE outcome[j]]
-                          ELSE outcome
+            EndSession
 
-Next == \E i \in Ids \cup (IF AllowUnknown THEN {UnknownId} ELSE {}), t \in ReplyTypes :
+\* the caller of request i gives up (CancelledError in _make_request)
+Cancel(i) ==
+    /\ ~closed /\ i \in waiting /\ i \notin cancelled
+    /\ Cardinality(cancelled) < MaxCancels
+    /\ cancelled' = cancelled \cup {i}
+    /\ outcome' = [outcome EXCEPT ![i] = <<"cancelled">>]
+    /\ lbl' = <<"cancel", i>>
+    /\ UNCHANGED <<kind, waiting, closed, nrep, sent, badId>>
+
+Next ==
+    \/ \E i \in Ids \cup (IF AllowUnknown THEN {UnknownId} ELSE {}), t \in ReplyTypes :
             Reply(i, t)
+    \/ \E i \in Ids : Cancel(i)
 
 Spec == Init /\ [][Next]_vars
 
@@ -84,17 +113,29 @@ Spec == Init /\ [][Next]_vars
 \* of the type its request allows
 OwnReply ==
     \A i \in Ids : outcome[i][1] = "value" => (outcome[i][3] = i /\ outcome[i][2] = kind[i])
-\* nobody is resolved without a reply carrying its id (or the session ending)
+\* nobody is resolved without a reply carrying its id (or the session ending,
+\* or the caller itself giving up)
 NoPhantomReply ==
-    \A i \in Ids : outcome[i] # <<"none">> => (i \in sent \/ closed)
+    \A i \in Ids : outcome[i] # <<"none">> => (i \in sent \/ closed \/ i \in cancelled)
 \* after an unknown / duplicate id nobody is left hanging
 UnknownIdFails == closed => (waiting = {} /\ \A i \in Ids : outcome[i] # <<"none">>)
 \* while the session is alive, a caller waits iff it has not been answered
-WaitsIffUnanswered == ~closed => \A i \in Ids : (i \in waiting) <=> (outcome[i] = <<"none">>)
+WaitsIffUnanswered ==
+    ~closed => \A i \in Ids : (i \in waiting /\ i \notin cancelled) <=> (outcome[i] = <<"none">>)
+\* one request's fate does not end the session: only a reply whose id has no
+\* entry in the table does (in particular not the late reply to a request
+\* whose caller was cancelled)
+EndsOnlyOnBadId == closed => badId
 \* an outcome, once delivered, never changes (exactly one reply is consumed)
-ExactlyOnce == [][\A i \in Ids : outcome[i] # <<"none">> => outcome'[i] = outcome[i]]_vars
+ExactlyOnce == [][\A i \in Ids : outcome[i] \notin {<<"none">>} => outcome'[i] = outcome[i]]_vars
+\* a late reply to a cancelled request changes nothing for anybody
+LateReplyHarmless ==
+    [][(lbl'[1] = "reply" /\ lbl'[2] \in waiting /\ lbl'[2] \in cancelled)
+         => (outcome' = outcome /\ closed' = closed)]_vars
 
 \* vacuity witnesses
 NeverValue == \A i \in Ids : outcome[i][1] # "value"
 NeverClosed == ~closed
+NeverLateReply == ~(\E i \in cancelled : i \in sent /\ ~closed /\
+                       \E j \in Ids : outcome[j][1] = "value" /\ j \notin cancelled)
 =============================================================================
